@@ -93,6 +93,21 @@ def families(tier, rng):
     return fam
 
 
+def slow_write_sessions():
+    """A backend whose write takes time *before* it takes effect: ABOR arrives while a block is on its way into the file.  Whatever was
+    not written when the transfer was answered is not written afterwards either."""
+    out = []
+    login = [["connect", 1], ["send", 1, "USER u1"], ["send", 1, "PASS pw1"]]
+    for verb in ("STOR n1", "APPE f", "STOR f"):
+        for nth in (1, 2):
+            for more in ([], [[5, 6]]):
+                st = login + [["send", 1, "PASV"], ["dconnect", 1], ["pregate", 1, "write", nth], ["send", 1, verb], ["dsend", 1, [1, 2]], ["dsend", 1, [3, 4]]]
+                st += [["dsend", 1, d] for d in more] + [["send", 1, "ABOR"], ["release", 1], ["tick", 0], ["send", 1, "MLST " + verb.split()[1]]]
+                st += gen.transfer(1, "APPE", verb.split()[1], data=[9]) + gen.transfer(1, "RETR", verb.split()[1])
+                out.append(st)
+    return out
+
+
 def bystander_sessions():
     """ABOR (or the end of the session) from a session that has no transfer while *another* session's transfer is waiting for its
     data connection, moving data or held in a backend call: the sender gets its single 226, the other transfer is not touched."""
@@ -131,6 +146,9 @@ def run(tier, seed):
         races = [s for f, s in fam if f.startswith(("race-start", "race-end"))]
         cfg = gen.std_cfg(ns=1, backend="async", block=2)
         corecheck.validate(chk, cfg, gen.STD_TREE, races, label="abor:async:b2")
+    sw = slow_write_sessions()
+    for blk in (2, 4):
+        corecheck.validate(chk, gen.std_cfg(ns=1, block=blk), gen.STD_TREE, sw, label="slow-write:b%d" % blk)
     by = bystander_sessions()
     for b in ("memory", "async"):
         corecheck.validate(chk, gen.std_cfg(ns=2, backend=b, block=2), gen.STD_TREE, by, label="bystander:" + b)
